@@ -53,7 +53,7 @@ def WFrec (r : GRec) : Prop :=
   (∃ c t, r.group = c :: t ∧ graphic c ∧ c ≠ '#') ∧
   ':' ∉ r.group ∧ '=' ∉ r.group ∧ ':' ∉ r.artifact ∧ '=' ∉ r.artifact ∧ '=' ∉ r.ver ∧
   okText r.group ∧ okText r.artifact ∧ okText r.ver ∧ okText r.confs ∧
-  inlineWs r.lead ∧ inlineWs r.trail ∧ (recLine r).length + 1 < maxTok
+  inlineWs r.lead ∧ inlineWs r.trail ∧ (recLine r).length + 1 < maxTok ∧ r.artifact ≠ []   -- a Maven coordinate has a group AND an artifact
 
 instance (r : GRec) : Decidable (WFrec r) := by
   unfold WFrec
